@@ -2793,8 +2793,34 @@ def image(
         then quantify `qvars` universally,
         else existentially.
     """
+    qvars, rename = _image_args_by_name(
+        rename, qvars, bdd)
+    return _image_of(
+        bdd, trans, source, rename, qvars, forall)
+
+
+@_try_to_reorder
+def _image_of(
+        bdd:
+            BDD,
+        trans:
+            _Ref,
+        source:
+            _Ref,
+        rename:
+            dict,
+        qvars:
+            set,
+        forall:
+            _Yes
+        ) -> _Ref:
+    """Return image, variables given by name.
+
+    Runs again if reordering occurs,
+    mapping the names to the new levels.
+    """
     # map to levels
-    qvars = bdd._map_to_level(set(qvars))
+    qvars = bdd._map_to_level(qvars)
     rename = {
         bdd.vars.get(k, k): bdd.vars.get(v, v)
         for k, v in rename.items()}
@@ -2857,8 +2883,34 @@ def preimage(
         then quantify `qvars` universally,
         else existentially.
     """
+    qvars, rename = _image_args_by_name(
+        rename, qvars, bdd)
+    return _preimage_of(
+        bdd, trans, target, rename, qvars, forall)
+
+
+@_try_to_reorder
+def _preimage_of(
+        bdd:
+            BDD,
+        trans:
+            _Ref,
+        target:
+            _Ref,
+        rename:
+            dict,
+        qvars:
+            set,
+        forall:
+            _Yes
+        ) -> _Ref:
+    """Return preimage, variables given by name.
+
+    Runs again if reordering occurs,
+    mapping the names to the new levels.
+    """
     # map to levels
-    qvars = bdd._map_to_level(set(qvars))
+    qvars = bdd._map_to_level(qvars)
     rename = {
         bdd.vars.get(k, k): bdd.vars.get(v, v)
         for k, v in rename.items()}
@@ -2871,6 +2923,32 @@ def preimage(
     return _image(
         trans, target, rename_u, rename_v,
         qvars, bdd, forall, cache)
+
+
+def _image_args_by_name(
+        rename:
+            dict,
+        qvars:
+            _abc.Iterable,
+        bdd:
+            BDD
+        ) -> tuple[set, dict]:
+    """Return `qvars`, `rename` with names for levels.
+
+    Levels change if reordering occurs while
+    the (pre)image is computed, names do not.
+    """
+    level_to_var = bdd._level_to_var
+    qvars = {
+        level_to_var[j]
+        for j in bdd._map_to_level(set(qvars))}
+    def name(k):
+        j = bdd.vars.get(k, k)
+        return level_to_var.get(j, j)
+    rename = {
+        name(k): name(v)
+        for k, v in rename.items()}
+    return qvars, rename
 
 
 def _image(
